@@ -177,9 +177,9 @@ func execCursorCase(c cursorCase, _ core.Source) (res core.Result) {
 type snapCase struct {
 	Kind      string   `json:"kind"`
 	Size      int      `json:"size"`
-	Pre       int      `json:"pre"`       // moves of the first iterator before the mutation
-	Mutations []string `json:"mutations"` // names resolved per kind
-	Other     []itMove `json:"other"`     // moves of a second iterator in between
+	Pre       int      `json:"pre"`           // moves of the first iterator before the mutation
+	Mutations []string `json:"mutations"`     // names resolved per kind
+	Other     []itMove `json:"other"`         // moves of a second iterator in between
 	NaN       bool     `json:"nan,omitempty"` // Catalog and Map: the second key is a NaN (a key no lookup finds)
 }
 
